@@ -50,6 +50,8 @@ var c16Alphabet = []c16Cmd{
 	{"define", "r(X) :- a(X)."},
 	{"define", "s(X) :- nope(X)."},
 	{"define", "a(5)."},
+	{"define", "Decl a(X) bound [/number]."},
+	{"define", "Decl zz(X) bound [/number]. zz(1)."},
 	{"load", "a.mg"},
 	{"load", "b.mg"},
 	{"load", "c.mg"},
@@ -61,9 +63,9 @@ var c16Alphabet = []c16Cmd{
 	{"pop", ""},
 }
 
-var c16Small = []int{0, 2, 3, 4, 6, 7, 9, 12, 14}
+var c16Small = []int{0, 2, 3, 4, 6, 8, 9, 11, 14, 16}
 
-var c16Preds = []string{"p", "q", "r", "s", "a", "b", "c", "x", "ta", "tb", "nope"}
+var c16Preds = []string{"p", "q", "r", "s", "a", "b", "c", "x", "ta", "tb", "nope", "zz"}
 
 type c16State struct {
 	loaded      []string // live loaded pathsets
@@ -235,7 +237,7 @@ func c16(r *rt.Run) {
 	_ = firsts
 	_ = jobs
 	os.RemoveAll(root)
-	r.Finish("every command history up to depth d over 15 commands (6 defines incl. a rejected one and a redefinition, 8 loads incl. parse error, redefinition, evaluation error, temporal file, multi-file pathset; pop), each on a fresh interpreter; " +
+	r.Finish("every command history up to depth d over 17 commands (8 defines incl. declarations, incl. a rejected one and a redefinition, 8 loads incl. parse error, redefinition, evaluation error, temporal file, multi-file pathset; pop), each on a fresh interpreter; " +
 		"after every command: success/failure and the answers to 11 predicate queries are compared with a fresh interpreter that loads only the live fragments; states = distinct histories, non-trivial = histories with a pop or a failed command")
 }
 
